@@ -92,18 +92,21 @@ def ringSchedCase (inp impl : String) : CaseOut :=
     let sched : List Nat := match kv ws "sched" with
       | some s => (commaList s).filterMap String.toNat?
       | none => []
-    let stepT (st : Ring Nat × List (List String) × List (List String) × List String) (tid : Nat) :=
-      let (r, rem, res, log) := st
+    -- a locked method is two scheduled steps: "lock" (the whole critical section, atomically) and "unlocked"
+    -- (whatever the method does after releasing the mutex: nothing that touches the ring); Len is one step
+    let stepT (st : Ring Nat × List (List String) × List (List String) × List String × List Nat) (tid : Nat) :=
+      let (r, rem, res, log, tails) := st
+      if tails.contains tid then (r, rem, res, log ++ [s!"t{tid}:unlocked"], tails.erase tid) else
       match rem[tid]? with
       | some (op :: ops') =>
         match parseROp op with
         | some (.op o) =>
           let (r', out) := r.step o
-          let lbl := match o with | .len => "len" | _ => "lock"
-          (r', rem.set tid ops', res.set tid ((res.getD tid []) ++ [showOut out]), log ++ [s!"t{tid}:{lbl}"])
-        | _ => (r, rem.set tid ops', res, log ++ [s!"t{tid}:bad"])
-      | _ => (r, rem, res, log ++ [s!"t{tid}:none"])
-    let (r, _, res, log) := sched.foldl stepT (Ring.new size, progs, progs.map (fun _ => []), [])
+          let (lbl, tails') := match o with | .len => ("len", tails) | _ => ("lock", tid :: tails)
+          (r', rem.set tid ops', res.set tid ((res.getD tid []) ++ [showOut out]), log ++ [s!"t{tid}:{lbl}"], tails')
+        | _ => (r, rem.set tid ops', res, log ++ [s!"t{tid}:bad"], tails)
+      | _ => (r, rem, res, log ++ [s!"t{tid}:none"], tails)
+    let (r, _, res, log, _) := sched.foldl stepT (Ring.new size, progs, progs.map (fun _ => []), [], [])
     let restQ := r.abs
     let model := String.intercalate ";" (log ++ ["end:" ++ String.intercalate "|" (res.map (String.intercalate ",")) ++
       ":rest=" ++ String.intercalate "." (restQ.map toString)])
